@@ -2,7 +2,7 @@
    Only statements; proofs by reference (proofs/RotateProofs.v).  Model: model/Rotate.v
    (ctrl/qryn/maintenance/rotate.go: Rotate, rotateTables, storagePolicyUpdate, forgetSetting, get/putSetting). *)
 From Coq Require Import List ZArith Bool String.
-From Qryn Require Import model.Rotate proofs.RotateProofs.
+From Qryn Require Import model.Rotate model.RotateCfg proofs.RotateProofs proofs.RotateCfgProofs.
 Import ListNotations.
 Open Scope string_scope.
 Open Scope list_scope.
@@ -113,3 +113,61 @@ Theorem failed_call_is_last : forall cfg f d e rest, run_log cfg f d = e :: rest
   Forall (fun x => snd x = true) rest /\ snd (run cfg f d) = snd e.
 Proof. exact run_failed_call_is_last. Qed.
 Print Assumptions failed_call_is_last.
+
+(* ------------------------------------------------------------------ from the configuration to Rotate
+   rotateDB / RotateAll (maintain.go) and portCHEnv (main.go), model/RotateCfg.v; time.ParseDuration is any function. *)
+
+(* A ttl_policy timeout that does not parse: rotateDB issues no statement, changes nothing, reports an error. *)
+Theorem bad_timeout_touches_nothing : forall parse o f d,
+  (exists e, In e (o_ttl_policy o) /\ parse (e_timeout e) = None) ->
+  rotate_db parse o f d = ({| w_db := d; w_log := []; w_fault := f |}, false).
+Proof. exact rotate_db_bad_timeout. Qed.
+Print Assumptions bad_timeout_touches_nothing.
+
+(* Every timeout parses: rotateDB applies the configuration read off the object (cluster name, distributed exactly
+   when a cluster is named, one policy per ttl_policy element, ttl_days, storage policy) and converges to it. *)
+Theorem configured_object_converges : forall parse o cfg d, config_of parse o = Some cfg -> consistent d ->
+  (cluster cfg = o_cluster o /\ distributed cfg = negb (String.eqb (o_cluster o) "") /\
+   Forall2 (fun e p => parse (e_timeout e) = Some (p_ns p) /\ p_disk p = e_move_to e) (o_ttl_policy o) (days cfg) /\
+   drop_days cfg = o_ttl_days o /\ storage_policy cfg = o_storage_policy o) /\
+  snd (rotate_db parse o None d) = true /\ converged cfg (w_db (fst (rotate_db parse o None d))) /\
+  consistent (w_db (fst (rotate_db parse o None d))).
+Proof.
+  intros parse o cfg d Hc Hd. split; [exact (config_of_some parse o cfg Hc)|]. exact (rotate_db_converges parse o cfg d Hc Hd).
+Qed.
+Print Assumptions configured_object_converges.
+
+(* Every MODIFY TTL that rotateDB issues (any fault, any database) has exactly one tier per ttl_policy element, in
+   order: the element's disk after min(max(table minimum, whole seconds of the parsed timeout), 2^31-1) seconds; and
+   deletes after ttl_days days.  No element is skipped, none is invented. *)
+Theorem tiers_are_the_ttl_policy_elements : forall parse o f d t c ts dd b,
+  In (CTtl t c ts dd, b) (w_log (fst (rotate_db parse o f d))) ->
+  Forall2 (fun e tr => exists ns, parse (e_timeout e) = Some ns /\
+             tr_secs tr = Z.min (Z.max (table_min t) (Z.quot ns 1000000000)) 2147483647 /\ tr_disk tr = e_move_to e)
+          (o_ttl_policy o) ts
+  /\ dd = o_ttl_days o.
+Proof. exact rotate_db_tiers. Qed.
+Print Assumptions tiers_are_the_ttl_policy_elements.
+
+(* RotateAll over any list of configuration objects, under any fault: records still name only applied values. *)
+Theorem rotate_all_keeps_records_true : forall parse os f d, consistent d -> consistent (snd (rotate_all parse os f d)).
+Proof. exact rotate_all_consistent. Qed.
+Print Assumptions rotate_all_keeps_records_true.
+
+(* Environment -> portCHEnv -> RotateAll: when portCHEnv accepts the environment (no database listed by a
+   configuration file), the run succeeds and converges to: delete after SAMPLES_DAYS days (7 when unset, else the
+   decimal int64 the text spells), STORAGE_POLICY, CLUSTER_NAME, no tiers. *)
+Theorem environment_to_retention : forall parse e os d, port_ch_env e [] = Some os -> consistent d ->
+  exists days cfg l d',
+    (if String.eqb (getenv e "SAMPLES_DAYS") "" then days = 7 else atoi (getenv e "SAMPLES_DAYS") = Some days) /\
+    cfg = {| cluster := getenv e "CLUSTER_NAME"; distributed := negb (String.eqb (getenv e "CLUSTER_NAME") "");
+             days := []; drop_days := days; storage_policy := getenv e "STORAGE_POLICY" |} /\
+    rotate_all parse os None d = (l, true, d') /\ converged cfg d' /\ consistent d'.
+Proof. exact env_end_to_end. Qed.
+Print Assumptions environment_to_retention.
+
+(* A SAMPLES_DAYS text that is not an optionally signed decimal int64 is refused. *)
+Theorem bad_samples_days_refused : forall e, getenv e "SAMPLES_DAYS" <> "" -> atoi (getenv e "SAMPLES_DAYS") = None ->
+  port_ch_env e [] = None.
+Proof. exact port_ch_env_bad_days. Qed.
+Print Assumptions bad_samples_days_refused.
